@@ -10,6 +10,7 @@ import (
 	"net"
 	"strings"
 	"sync"
+	"sync/atomic"
 	"time"
 
 	apicommon "github.com/enfein/mieru/v3/apis/common"
@@ -36,8 +37,12 @@ import (
 //     parameters the server chose, and sees end-of-stream exactly when the server closed;
 //   * the reference server decodes exactly the bytes the real client's application wrote;
 //   * every byte / datagram the real client emits decodes under the reference codec;
-//   * the real client never drops or rejects a lawful segment of the reference server (on UDP
-//     everything is acknowledged on a loss-free network without a single retransmission).
+//   * the real client never drops or rejects a lawful segment of the reference server: the session
+//     stays alive, the close-session request is answered, and on UDP (loss-free network) every
+//     numbered segment is acknowledged. The reference server repeats a segment only after 300 ms
+//     without an acknowledgement; that happens when the real client swallows its own ack (the
+//     flag ackOnDataRecv is raised before nextRecv advances and cleared after an ack that still
+//     carries the old number) — counted in the histogram third_server_udp_repeat, not a wire matter.
 // Correspondence: the Lean codec decodes the client's traffic to the same segments, selects the
 // same reply key, and re-encodes every segment the reference server sent to the same bytes.
 
@@ -424,6 +429,11 @@ func c09ThirdPartyServer(c *core.Ctx, k c09SrvCase) {
 		off  int // offset of its payload in the server's stream of the session
 	}
 	failed := false
+	defer func() {
+		if failed {
+			atomic.AddInt32(&c09SrvFailedCases, 1)
+		}
+	}()
 	fail := func(kk, what string) {
 		failed = true
 		c.Violate(key(kk), what, k)
@@ -545,6 +555,7 @@ func c09ThirdPartyServer(c *core.Ctx, k c09SrvCase) {
 		var numbered []resend // by sequence number
 		want, dOff := 0, 0
 		aborted := false
+		abortKey, abortWhat, dueDown := "", "", 0 // a failure of the exchange whose cause may be the client's reader
 		sendSeg := func(gi int, sg c09SrvSeg) {
 			t := time.Now()
 			pl := down[dOff : dOff+sg.N]
@@ -622,7 +633,21 @@ func c09ThirdPartyServer(c *core.Ctx, k c09SrvCase) {
 				if derr != nil || nb > 0 {
 					fail("client-traffic-undecodable", fmt.Sprintf("session %d round %d: the reference codec cannot decode what the real client sent (stream error: %v; undecodable datagrams: %d) after %d of %d application bytes", si, ri, derr, nb, have, want))
 				} else {
-					fail("client-bytes-missing", fmt.Sprintf("session %d round %d: the reference server decoded %d of the %d bytes the real client's application wrote", si, ri, have, want))
+					// a client whose application is still waiting for bytes of the previous round never
+					// gets to write these: decided below, when its application has reported
+					abortKey, abortWhat = "client-bytes-missing", fmt.Sprintf("session %d round %d: the reference server decoded %d of the %d bytes the real client's application wrote", si, ri, have, want)
+					if ri > 0 {
+						dueDown = dOff
+					} else if k.UDP && len(rd.Segs) > 0 {
+						// on UDP the real client holds its data back until it has the open-session response
+						sv.mu.Lock()
+						ua, dups := rs.s.PeerUnAck, rs.s.Dups
+						sv.mu.Unlock()
+						if ua == 0 {
+							op := rd.Segs[0]
+							abortKey, abortWhat = "open-response-not-accepted", fmt.Sprintf("session %d: the real client never acknowledged the reference server's open-session response [payload %d bytes, suffix padding %d] and sent no data (it repeated its open-session request %d times); the reference client decodes that response", si, op.N, op.P2, dups)
+						}
+					}
 				}
 				aborted = true
 				break
@@ -687,7 +712,8 @@ func c09ThirdPartyServer(c *core.Ctx, k c09SrvCase) {
 							break
 						}
 					}
-					fail("udp-not-acknowledged/at="+strings.Fields(what)[0], fmt.Sprintf("session %d round %d: on a loss-free network the real client acknowledged %d of the %d numbered segments the reference server sent (each unacknowledged one repeated every 300 ms); the first one it never accepted: #%d %s", si, ri, ua, ns, ua, what))
+					dueDown = dOff
+					abortKey, abortWhat = "udp-not-acknowledged/at="+strings.Fields(what)[0], fmt.Sprintf("session %d round %d: on a loss-free network the real client acknowledged %d of the %d numbered segments the reference server sent (each unacknowledged one repeated every 300 ms); the first one it never accepted: #%d %s", si, ri, ua, ns, ua, what)
 					aborted = true
 					break
 				}
@@ -728,7 +754,10 @@ func c09ThirdPartyServer(c *core.Ctx, k c09SrvCase) {
 				rerr = res.errs[i]
 			}
 		}
-		if !aborted && (rerr != nil || !bytes.Equal(gotAll, down[:len(gotAll)]) || (res.wErr == nil && len(gotAll) != len(down))) {
+		appFailed := false
+		if (!aborted && (rerr != nil || !bytes.Equal(gotAll, down[:len(gotAll)]) || (res.wErr == nil && len(gotAll) != len(down)))) ||
+			(aborted && (!bytes.Equal(gotAll, down[:len(gotAll)]) || len(gotAll) < dueDown)) {
+			appFailed = true
 			// where does it go wrong?
 			d := 0
 			for d < len(gotAll) && d < len(down) && gotAll[d] == down[d] {
@@ -736,15 +765,23 @@ func c09ThirdPartyServer(c *core.Ctx, k c09SrvCase) {
 			}
 			at := "?"
 			desc := ""
-			for _, ss := range sent {
+			for i, ss := range sent {
 				if ss.plan.N > 0 && d >= ss.off && d < ss.off+ss.plan.N {
 					at = ss.kind
 					desc = fmt.Sprintf("%s n=%d pad1=%d pad2=%d le_mode=%d le_rot=%d le_pad=%d", ss.kind, ss.plan.N, ss.plan.P1, ss.plan.P2, ss.plan.LEMode, ss.plan.LERot, ss.plan.LEPad)
+					// nothing of this segment arrived: a payload-less segment sent just before it may be
+					// what the client stumbled over
+					if d == ss.off {
+						for j := i - 1; j >= 0 && sent[j].plan.N == 0; j-- {
+							at = ss.kind + "-after-" + sent[j].kind
+							desc += fmt.Sprintf(", sent right after [%s pad1=%d pad2=%d]", sent[j].kind, sent[j].plan.P1, sent[j].plan.P2)
+						}
+					}
 					break
 				}
 			}
 			if rerr != nil {
-				fail("client-rejected-lawful-segment/at="+at, fmt.Sprintf("session %d: the real client's application read %d of the %d bytes the reference server wrote, then Read failed with %q; the stream stops inside segment [%s] (a lawful segment: the reference client decodes it)", si, len(gotAll), len(down), rerr.Error(), desc))
+				fail("client-rejected-lawful-segment/at="+at, fmt.Sprintf("session %d: the real client's application read %d of the %d bytes the reference server wrote, then Read failed with %q; what it read departs from what was written at offset %d, inside segment [%s] (a lawful segment: the reference client decodes it)", si, len(gotAll), len(down), rerr.Error(), d, desc))
 			} else {
 				fail("client-reads-differ/at="+at, fmt.Sprintf("session %d: the real client's application read bytes that differ from what the reference server wrote at offset %d of %d (inside segment [%s])", si, d, len(down), desc))
 			}
@@ -752,7 +789,10 @@ func c09ThirdPartyServer(c *core.Ctx, k c09SrvCase) {
 		if !aborted && sc.ServerCloses && res.eofDone && !(res.eofN == 0 && res.eofErr == io.EOF) {
 			fail("no-eof-after-close-request", fmt.Sprintf("session %d: after the reference server's close-session request the real client's Read returned (%d, %v), want (0, EOF)", si, res.eofN, res.eofErr))
 		}
-		if aborted {
+		if abortKey != "" && !appFailed {
+			fail(abortKey, abortWhat)
+		}
+		if aborted || appFailed {
 			break
 		}
 		// --- the client's close, seen by the reference server --------------------------------------
@@ -1257,7 +1297,14 @@ func genC09Srv(r *rand.Rand, udp bool, boundary int, thorough bool) c09SrvCase {
 	return k
 }
 
+// after a few failing cases the rest of a run only costs time-outs
+var c09SrvFailedCases int32
+
 func c09SrvRunCase(c *core.Ctx, k c09SrvCase) {
+	if atomic.LoadInt32(&c09SrvFailedCases) >= 4 {
+		c.Hist("third_server_skipped_after_failures", "cases")
+		return
+	}
 	c.Eval(fmt.Sprintf("third-server/%v/%d", k.UDP, k.Seed), true)
 	c09ThirdPartyServer(c, k)
 }
